@@ -1,6 +1,6 @@
 (* C15 Package type names map one-to-one, case-insensitively *)
 Load "coq/props/Hdr".
-From PM Require Import C15 Assemble.
+From PM Require Import C15 Lower2 Assemble.
 Lemma src_cfg_ok : cfg_ok cfg. Proof. sc. Qed.
 Theorem C15_any_case_parses : forall s t, make_ascii_lowercase s = pt_name t -> pt_from_str cfg s = Some t.
 Proof. apply C15_complete. Qed.
@@ -15,3 +15,6 @@ Print Assumptions C15_names_distinct_lowercase.
 Theorem C15_name_injective : forall t1 t2, pt_name t1 = pt_name t2 -> t1 = t2.
 Proof. apply pt_name_inj. Qed.
 Print Assumptions C15_name_injective.
+Theorem C15_fold_table_lookup_is_complete : forall c l, In (c, l) (fold_tbl cfg) -> fold_c cfg c = l.
+Proof. intros c l H. unfold fold_c. rewrite (Lower2.tbl_find_complete cfg (fold_tbl cfg) c l); [reflexivity|vm_compute; reflexivity|exact H]. Qed.
+Print Assumptions C15_fold_table_lookup_is_complete.
